@@ -28,6 +28,9 @@ CLAIMS = {
  "C13": dict(cat="model_checking", ref="3 (C13)", technique="TLA+ writer/reader protocol InconFile.tla over typed record streams, one step per record, model-checked by TLC (round trip, second write identical, reader termination; negative configurations for every well-formedness condition); every TLC document instantiated, written, traced at record level, read back and rewritten by the real t2incon",
    text="TLC explores every well-formed document within bounds (blocks, numbers of variables on both sides of the 4-per-line boundary, every optional-field combination, timing x reset, flavour, num_variables) through write / read / write and checks that the reader inverts the writer, terminates, and that the second stream equals the first; each well-formedness condition is shown necessary by a failing configuration. The same documents are instantiated with concrete values and names and run through the real code with a record-level trace compared with the specified stream, the re-read object compared field by field and the second file byte for byte; shipped files are cycled too.",
    note="Values compared with Python formatting at the decimals that fit the field (C02); documents limited to MaxBlocks blocks in TLC; shipped files are cycled by the harness without TLC."),
+ "C03": dict(cat="model_checking", ref="3 (C03)", technique="TLA+ writer/reader protocol MulgridFile.tla (header flags, keyword dispatch, blank-line sentinels, scale tags on coordinates) model-checked by TLC over 72 header combinations x a family of bodies built through the public API; every TLC document instantiated, written with a record-level trace, read back and rewritten by the real mulgrid",
+   text="TLC checks that the reader inverts the writer for every header combination and body (sections present or absent, 3/4/5-node columns, specified centres, surfaces, wells), that the unit written is the geometry's and coordinates are re-read at the right scale, that every record is consumed and that the second stream equals the first; the pinned header handling is shown to fail (negative configuration). The same documents, random rectangular geometries with all flags/feet/surfaces/wells and the shipped geometries (as-is, rotated, refined, reduced) are cycled through the real code: header options, nodes, columns, connections, layers, surfaces, wells, block and connection name lists compared, second file byte-identical.",
+   note="Coordinates compared at the decimals the format carries, in the file's unit; DMPlex ordering only for 3/4-node columns (library restriction); names right-justified."),
 }
 REASONS_PENDING = "check not built yet in this revision (see DESIGN.md section 6 build order); the specification family applies"
 NA = {
